@@ -11,27 +11,7 @@ Lemma defaultReceiver_accept_shape : skel_defaultReceiver_accept =
   ["call measure"; "call mu.Lock"; "defer call mu.Unlock"; "set currentWindow"; "call items.Len"; "call items.PushBack"; "call cond.Signal"].
 Proof. reflexivity. Qed.
 
-Lemma defaultReceiver_dequeue_shape : skel_defaultReceiver_dequeue =
-  ["defer func"; "call mu.Lock"; "defer call mu.Unlock"; "call items.Front"; "call items.Remove"; "call measure"; "set currentWindow"; "call cond.Wait"].
-Proof. reflexivity. Qed.
-
-Lemma defaultReceiver_close_shape : skel_defaultReceiver_close =
-  ["call mu.Lock"; "defer call mu.Unlock"; "call handleClosure"].
-Proof. reflexivity. Qed.
-
-Lemma defaultReceiver_cancel_shape : skel_defaultReceiver_cancel =
-  ["call mu.Lock"; "defer call mu.Unlock"; "call handleClosure"; "call items.Init"].
-Proof. reflexivity. Qed.
-
 Lemma noFlowControlReceiver_accept_shape : skel_noFlowControlReceiver_accept =
   ["call ingestMu.Lock"; "defer call ingestMu.Unlock"; "select"; "recv closed"; "end"; "select"; "send ch"; "recv closed"; "end"].
-Proof. reflexivity. Qed.
-
-Lemma noFlowControlReceiver_close_shape : skel_noFlowControlReceiver_close =
-  ["call doClose.Do"].
-Proof. reflexivity. Qed.
-
-Lemma noFlowControlReceiver_cancel_shape : skel_noFlowControlReceiver_cancel =
-  ["call close"].
 Proof. reflexivity. Qed.
 
